@@ -6,7 +6,7 @@
 set -e
 HERE="$(cd "$(dirname "$0")" && pwd)"
 V="$HERE/.venv"
-if [ -x "$V/bin/python" ] && "$V/bin/python" -c "import crosshair, z3, zope.testrunner.runner" 2>/dev/null; then
+if [ -x "$V/bin/python" ] && grep -q VERIF_REPO "$V/lib/python3.12/site-packages/zz_verif_overlay.pth" 2>/dev/null && "$V/bin/python" -c "import crosshair, z3, zope.testrunner.runner" 2>/dev/null; then
     exit 0
 fi
 rm -rf "$V"
@@ -15,6 +15,7 @@ SP="$V/lib/python3.12/site-packages"
 cat > "$SP/zz_verif_overlay.pth" <<'PTH'
 import site; site.addsitedir('/venv/lib/python3.12/site-packages')
 import sys; m = sys.modules.get('zope'); m is not None and '/venv/lib/python3.12/site-packages/zope' not in m.__path__ and m.__path__.append('/venv/lib/python3.12/site-packages/zope')
+import os, sys; r = os.environ.get('VERIF_REPO'); m = sys.modules.get('zope'); r and r != '/repo' and m is not None and m.__path__.__setitem__(slice(None), [r + '/src/zope'] + [p for p in m.__path__ if not p.startswith('/repo/')])
 PTH
 PIP_NO_INDEX=1 "$V/bin/pip" install -q --no-index --find-links /opt/veriftools/wheels crosshair-tool >/dev/null
 "$V/bin/python" -c "import crosshair, z3, zope.testrunner.runner; print('overlay venv ok', z3.get_version_string())"
